@@ -506,6 +506,14 @@ def storeStep (s : State.Db × Store.Store) (j : Lean.Json) : Except String ((St
   | "oids_exist" =>
     let (found, st', db') := Store.oidsExistLocal md5H "md5" (← strList j "oids") db st
     pure ((db', st'), Lean.Json.mkObj [("found", strArr found), ("store", storeTo st')])
+  | "add_nocheck" =>
+    -- one object of add(..., check_exists=False); "data": null = the copy fails
+    let oid ← str j "oid"
+    let src ← match j.getObjVal? "data" with
+      | .ok (.str h) => do pure (some (← unhex h, ← stampOf (← j.getObjVal? "stamp")))
+      | _ => pure none
+    let (failed, st', db') := Store.addBatch localClass "md5" db st [(oid, src)]
+    pure ((db', st'), Lean.Json.mkObj [("failed", strArr failed), ("store", storeTo st')])
   | o => throw s!"bad store op {o}"
 
 def opStoreHistory (j : Lean.Json) : Except String Lean.Json := do
